@@ -457,6 +457,21 @@ func (c18Engine) Exec(c *Case, job *Job) *Result {
 					if op.Shared {
 						sig += " (shared catalog)"
 					}
+					if addrRE.ReplaceAllString(want, "0xADDR") == addrRE.ReplaceAllString(got, "0xADDR") {
+						// equal up to hexadecimal addresses: the result prints a pointer (not an effect of
+						// the schedule - the same difference shows between two sequential builds, see C06)
+						if loc := addrRE.FindStringIndex(got); loc != nil {
+							from := loc[0] - 60
+							if from < 0 {
+								from = 0
+							}
+							ctx := got[from:loc[0]]
+							if i := strings.LastIndexByte(ctx, '\n'); i >= 0 {
+								ctx = ctx[i+1:]
+							}
+							sig += " differs-only-in-addresses after: " + ctx
+						}
+					}
 					msg = fmt.Sprintf("task %d operation %d (%s on project %d, shared=%v) returned %s under the simulated schedule, running alone it returns %s\n%s",
 						t, i, strings.TrimSpace(what), op.Proj, op.Shared, obs.shorts[t][i], trunc(firstLine(want), 80), firstDiff(want, got))
 					break
